@@ -336,6 +336,7 @@ macro_rules! c07_normal {
     };
 }
 //@ id: c07_normal_f64
+//@ besteffort: yes
 //@ prop: C07
 //@ tier: thorough
 //@ cap: 900
@@ -389,6 +390,7 @@ macro_rules! c07_lognormal {
     };
 }
 //@ id: c07_lognormal_f64
+//@ besteffort: yes
 //@ prop: C07
 //@ tier: thorough
 //@ cap: 900
